@@ -143,6 +143,58 @@ def now(e, why, syms, meta, ops):
     return {"status": "cex", "failing": [why], "cex": mk(m, syms, meta, ops)}
 
 
+def long_harness(L, R, limit):
+    """a long recording: R one-sample blocks read before the first rewind (every block exists: n >= R), then rewind; `data`
+    must be the first R samples and the replay must start with the first block again"""
+    util = L.modules["util"]
+
+    def path(e):
+        D, data = byt.sym_audio(e, "D", 1)
+        n = D.nsamples
+        e.assume(n >= R + 2)
+        meta = dict(kind="long", R=R, limit=limit)
+        kw = dict(max_read=(R + 1) / 10) if limit else {}
+        conds = {}
+        try:
+            r = util.AudioReader(data, block_dur=0.1, sr=10, sw=1, ch=1, record=True, **kw)
+            r.open()
+            bad = 0
+            for i in range(R):
+                out = r.read()
+                if out is None:
+                    bad += 1
+                elif i % 97 == 0 or i >= R - 3:
+                    conds[("block", i)] = slice_goal(out, D, i, i + 1)
+            conds["every read returns a block"] = bad == 0
+            r.rewind()
+            conds["data is what was read"] = slice_goal(r.data, D, 0, R)
+            first = r.read()
+            conds["replay starts over"] = first is not None and slice_goal(first, D, 0, 1)
+        except Exception as ex:
+            return now(e, "raised %s: %s" % (type(ex).__name__, str(ex)[:60]), {"n": n}, meta, [])
+        return tok.discharge(e, conds, lambda m: mk(m, {"n": n}, meta, []))
+    return path
+
+
+def replay_long(c):
+    ak = loader.real_auditok()
+    R, n = c["R"], max(c["n"], c["R"] + 2)
+    data = byt.concrete_bytes(n)
+    kw = dict(max_read=(R + 1) / 10) if c.get("limit") else {}
+    r = ak.AudioReader(data, block_dur=0.1, sr=10, sw=1, ch=1, record=True, **kw)
+    r.open()
+    blocks = [r.read() for _ in range(R)]
+    desc = "recording reader over %d one-sample blocks%s, %d reads, rewind" % (n, " (max_read %d samples)" % (R + 1) if c.get("limit") else "", R)
+    if any(b is None for b in blocks) or b"".join(blocks) != data[:R]:
+        return [("C19: a long first pass does not return the source's blocks", desc)]
+    r.rewind()
+    if r.data != data[:R]:
+        return [("C19: data differs from what was read", desc + ": data holds %d bytes, %d were read" % (len(r.data), R))]
+    if r.read() != data[:1]:
+        return [("C19: replay does not start over", desc)]
+    return []
+
+
 def mk(m, syms, meta, ops):
     c = dict(meta)
     c["ops"] = list(ops)
@@ -152,6 +204,8 @@ def mk(m, syms, meta, ops):
 
 
 def replay_fn(c):
+    if c.get("kind") == "long":
+        return replay_long(c)
     ak = loader.real_auditok()
     if c.get("kind") == "plain":
         kw = {}
@@ -281,6 +335,13 @@ def run(rep):
     for overlap in (False, True):
         hn = "history[advanced source,K=%d,%s]" % (min(K, 4), "overlap" if overlap else "")
         ex = explore(hist_harness(L, 2, 1, 10, min(K, 4), overlap, False, False, advanced=True))
+        rep.add_exploration(hn, ex)
+        tok.handle_cex(rep, hn, ex, replay_fn, ideal=True)
+    rep.bounds["long recordings"] = "1100 (thorough 5000) one-sample blocks read before the first rewind, source length any n beyond that, with and without max_read"
+    for limit in (False, True):
+        R = 1100 if tier == "quick" else 5000
+        hn = "long recording[%d reads%s]" % (R, ",limit" if limit else "")
+        ex = explore(long_harness(L, R, limit), workers=1, max_decisions=20000, path_wall_s=300)
         rep.add_exploration(hn, ex)
         tok.handle_cex(rep, hn, ex, replay_fn, ideal=True)
     for variant in ("plain", "limit", "overlap", "limit+overlap"):
